@@ -2,6 +2,7 @@
    its refinement of State/Ref.v (reference model).
    Part 1: well-formedness [wf] and the exact-restore lemma [restore]
            (journal.revert is a left inverse of what one API call appended). *)
+From Coq Require Import ssreflect.
 From stdpp Require Import gmap.
 From Coq Require Import NArith ZArith Lia.
 From RecordUpdate Require Import RecordSet.
@@ -22,15 +23,6 @@ Definition mok (m : mstate) : Prop :=
 Lemma mok0 : mok mstate0.
 Proof. repeat split; simpl; auto; lia. Qed.
 
-(* what the stash* functions do to the per-account state, by kind *)
-Definition stash_k (k : kind) (v : N) (m : mstate) : mstate :=
-  match k with
-  | KBalance => match s_bal m with Some _ => m | None => m <| s_bal := Some v |> end
-  | KNonce => match s_nonce m with Some _ => m | None => m <| s_nonce := Some v |> end
-  | KCode => match s_code m with Some _ => m | None => m <| s_code := Some v |> end
-  | _ => m
-  end.
-
 Lemma counts_zero_false m : counts_zero m = false ↔
   ¬ (c_touch m = 0 ∧ c_create m = 0 ∧ c_sd m = 0 ∧ c_bal m = 0 ∧ c_nonce m = 0 ∧ c_code m = 0 ∧ c_stor m = 0)%Z.
 Proof. unfold counts_zero. rewrite bool_decide_eq_false. done. Qed.
@@ -38,53 +30,264 @@ Lemma counts_zero_true m : counts_zero m = true ↔
   (c_touch m = 0 ∧ c_create m = 0 ∧ c_sd m = 0 ∧ c_bal m = 0 ∧ c_nonce m = 0 ∧ c_code m = 0 ∧ c_stor m = 0)%Z.
 Proof. unfold counts_zero. rewrite bool_decide_eq_true. done. Qed.
 
+Ltac rs := unfold set in *; simpl in *.
+Local Ltac fin := f_equal; [f_equal; lia | unfold counts_zero; simpl; apply bool_decide_ext; lia].
+
 Lemma m_remove_add k v m : mok m → m_remove k (m_add k (stash_k k v m)) = (m, counts_zero m).
 Proof.
   intros ((H1 & H2 & H3 & H4 & H5 & H6 & H7) & Hb & Hn & Hc).
   destruct m as [ct cc cs cb cn cd cst sb sn sc]; simpl in *.
   unfold m_remove, m_add.
   destruct k; simpl.
-  all: try (case_bool_decide as Hz; simpl in Hz;
-            [ try (f_equal; [f_equal; lia | unfold counts_zero; simpl; apply bool_decide_ext; lia])
-            | try (f_equal; [f_equal; lia | unfold counts_zero; simpl; apply bool_decide_ext; lia]) ]).
+  - rs. case_bool_decide as Hz; rs; fin.
+  - rs. case_bool_decide as Hz; rs; fin.
+  - rs. case_bool_decide as Hz; rs; fin.
   - (* balance *)
-    destruct sb as [x|]; simpl; case_bool_decide as Hz; simpl in *.
+    destruct sb as [x|]; rs; case_bool_decide as Hz; rs.
     + assert (cb ≠ 0%Z) by (intros ->; destruct Hb as [_ Hb]; specialize (Hb eq_refl); done). lia.
-    + f_equal; [f_equal; lia | unfold counts_zero; simpl; apply bool_decide_ext; lia].
-    + f_equal; [f_equal; lia | unfold counts_zero; simpl; apply bool_decide_ext; lia].
+    + fin.
+    + fin.
     + assert (cb = 0%Z) by (apply Hb; done). lia.
-  - destruct sn as [x|]; simpl; case_bool_decide as Hz; simpl in *.
+  - destruct sn as [x|]; rs; case_bool_decide as Hz; rs.
     + assert (cn ≠ 0%Z) by (intros ->; destruct Hn as [_ Hn]; specialize (Hn eq_refl); done). lia.
-    + f_equal; [f_equal; lia | unfold counts_zero; simpl; apply bool_decide_ext; lia].
-    + f_equal; [f_equal; lia | unfold counts_zero; simpl; apply bool_decide_ext; lia].
+    + fin.
+    + fin.
     + assert (cn = 0%Z) by (apply Hn; done). lia.
-  - destruct sc as [x|]; simpl; case_bool_decide as Hz; simpl in *.
+  - destruct sc as [x|]; rs; case_bool_decide as Hz; rs.
     + assert (cd ≠ 0%Z) by (intros ->; destruct Hc as [_ Hc]; specialize (Hc eq_refl); done). lia.
-    + f_equal; [f_equal; lia | unfold counts_zero; simpl; apply bool_decide_ext; lia].
-    + f_equal; [f_equal; lia | unfold counts_zero; simpl; apply bool_decide_ext; lia].
+    + fin.
+    + fin.
     + assert (cd = 0%Z) by (apply Hc; done). lia.
+  - rs. case_bool_decide as Hz; rs; fin.
 Qed.
 
 Lemma mok_add_stash k v m : mok m → mok (m_add k (stash_k k v m)).
 Proof.
   intros ((H1 & H2 & H3 & H4 & H5 & H6 & H7) & Hb & Hn & Hc).
   destruct m as [ct cc cs cb cn cd cst sb sn sc]; simpl in *.
-  destruct k; unfold m_add, mok; simpl; try (repeat split; try tauto; try lia; fail).
-  - destruct sb; simpl; repeat split; try tauto; try lia; try done.
-    + intros ->. destruct Hb as [_ Hb]. lia.
-    + intros ?. assert (cb = 0%Z) by tauto. lia.
-  - destruct sn; simpl; repeat split; try tauto; try lia; try done.
-    + intros ->. destruct Hn as [_ Hn]. lia.
-    + intros ?. assert (cn = 0%Z) by tauto. lia.
-  - destruct sc; simpl; repeat split; try tauto; try lia; try done.
-    + intros ->. destruct Hc as [_ Hc]. lia.
-    + intros ?. assert (cd = 0%Z) by tauto. lia.
+  destruct k; unfold m_add, mok; simpl; [| | |destruct sb|destruct sn|destruct sc|]; rs;
+    repeat split; intros; try done; try lia; try tauto.
 Qed.
 
 Lemma counts_zero_add k m : mok m → counts_zero (m_add k m) = false.
 Proof.
   intros ((H1 & H2 & H3 & H4 & H5 & H6 & H7) & _).
-  apply counts_zero_false. destruct m; destruct k; unfold m_add; simpl in *; lia.
+  apply counts_zero_false. destruct m; destruct k; unfold m_add; rs; lia.
 Qed.
 Lemma counts_zero_stash k v m : counts_zero (stash_k k v m) = counts_zero m.
 Proof. destruct m as [? ? ? ? ? ? ? sb sn sc]; destruct k; simpl; try done; [destruct sb|destruct sn|destruct sc]; done. Qed.
+
+(* ------------------------------------------------------------------ *)
+(* one step of journal.revert *)
+Definition undo1 (j : jstate) : jstate :=
+  match j_entries j with
+  | [] => j
+  | e :: rest => (unmutate e (revert_entry e j)) <| j_entries := rest |>
+  end.
+
+Lemma revert_n_S n j : revert_n (S n) j = match j_entries j with [] => j | _ => revert_n n (undo1 j) end.
+Proof. unfold undo1. simpl. destruct (j_entries j); done. Qed.
+
+Lemma revert_n_nil n j : j_entries j = [] → revert_n n j = j.
+Proof. intros H. destruct n; simpl; [done|]. by rewrite H. Qed.
+
+Lemma revert_n_add n m j : revert_n (n + m) j = revert_n m (revert_n n j).
+Proof.
+  revert j. induction n as [|n IH]; intros j; [done|].
+  change (S n + m)%nat with (S (n + m)). rewrite !revert_n_S.
+  destruct (j_entries j) eqn:E; [by rewrite revert_n_nil|]. apply IH.
+Qed.
+
+Definition mloc (j : jstate) (a : addr) : Prop :=
+  ∀ m, j_muts j !! a = Some m → mok m ∧ counts_zero m = false.
+
+Lemma revert_entry_muts e j : j_muts (revert_entry e j) = j_muts j.
+Proof.
+  destruct e; simpl; unfold with_obj, al_delete_slot; rs; repeat case_match; rs; done.
+Qed.
+Lemma revert_entry_entries e j : j_entries (revert_entry e j) = j_entries j.
+Proof.
+  destruct e; simpl; unfold with_obj, al_delete_slot; rs; repeat case_match; rs; done.
+Qed.
+
+Lemma undo1_mut j j' e a k v :
+  mutation e = Some (a, k) → mloc j a →
+  j_entries j' = e :: j_entries j →
+  j_muts j' = <[a := m_add k (stash_k k v (mstate_for a j))]> (j_muts j) →
+  revert_entry e j' <| j_entries := j_entries j |> <| j_muts := j_muts j |> = j →
+  undo1 j' = j.
+Proof.
+  intros Hm Hl He HM Hr. unfold undo1. rewrite He. unfold unmutate. rewrite Hm.
+  assert (HX : j_muts (revert_entry e j') = <[a := m_add k (stash_k k v (mstate_for a j))]> (j_muts j))
+    by (by rewrite revert_entry_muts).
+  rewrite HX lookup_insert m_remove_add.
+  1:{ unfold mstate_for. destruct (j_muts j !! a) as [m|] eqn:E; simpl; [by apply Hl|apply mok0]. }
+  unfold mstate_for in *. destruct (j_muts j !! a) as [m|] eqn:E; simpl in *.
+  - destruct (Hl m E) as [_ ->]. etrans; [|exact Hr].
+    destruct (revert_entry e j'); rs. f_equal. subst. by rewrite insert_insert insert_id.
+  - replace (counts_zero mstate0) with true by done. etrans; [|exact Hr].
+    destruct (revert_entry e j'); rs. f_equal. subst. by rewrite delete_insert.
+Qed.
+
+Lemma undo1_nomut j j' e :
+  mutation e = None → j_entries j' = e :: j_entries j →
+  revert_entry e j' <| j_entries := j_entries j |> = j →
+  undo1 j' = j.
+Proof. intros Hm He Hr. unfold undo1. rewrite He. unfold unmutate. by rewrite Hm. Qed.
+
+(* ------------------------------------------------------------------ *)
+(* exact restore, one journalled primitive at a time *)
+Ltac unf := unfold create_object, obj_set_balance, obj_set_nonce, obj_set_code, obj_set_state,
+  obj_self_destruct, put_obj, balance_change, nonce_change, code_change, stash_bal, stash_nonce,
+  stash_code, stash, j_append, with_obj, mstate_for in *.
+
+(* "P appends exactly entry e and one undo step gives j back" *)
+Definition restores (j j' : jstate) (e : jentry) : Prop :=
+  j_entries j' = e :: j_entries j ∧ undo1 j' = j.
+
+Lemma undo_create_object j a :
+  mloc j a → j_objs j !! a = None → restores j (create_object a j) (JCreateObject a).
+Proof.
+  intros Hl Ho. split; [unf; by rs|].
+  apply (undo1_mut _ _ (JCreateObject a) a KCreate 0); [done|done|unf; by rs|unf; by rs|].
+  unf. destruct j; rs. f_equal. by rewrite delete_insert.
+Qed.
+
+Lemma undo_set_balance j a o v :
+  mloc j a → j_objs j !! a = Some o →
+  restores j (obj_set_balance a o v j) (JBalance a (a_bal (o_data o))).
+Proof.
+  intros Hl Ho. split; [unf; by rs|].
+  apply (undo1_mut _ _ (JBalance a (a_bal (o_data o))) a KBalance (a_bal (o_data o))); [done|done|unf; by rs|..].
+  - unf. rs. by rewrite lookup_insert insert_insert.
+  - unf. destruct j; rs. rewrite lookup_insert. rs. f_equal.
+    rewrite insert_insert. apply insert_id. rewrite Ho. f_equal. by destruct o as [? [] ? ? ? ?].
+Qed.
+
+Lemma undo_set_nonce j a o v :
+  mloc j a → j_objs j !! a = Some o →
+  restores j (obj_set_nonce a o v j) (JNonce a (a_nonce (o_data o))).
+Proof.
+  intros Hl Ho. split; [unf; by rs|].
+  apply (undo1_mut _ _ (JNonce a (a_nonce (o_data o))) a KNonce (a_nonce (o_data o))); [done|done|unf; by rs|..].
+  - unf. rs. by rewrite lookup_insert insert_insert.
+  - unf. destruct j; rs. rewrite lookup_insert. rs. f_equal.
+    rewrite insert_insert. apply insert_id. rewrite Ho. f_equal. by destruct o as [? [] ? ? ? ?].
+Qed.
+
+Lemma undo_set_code j a o v :
+  mloc j a → j_objs j !! a = Some o →
+  restores j (obj_set_code a o v j) (JCode a (a_code (o_data o))).
+Proof.
+  intros Hl Ho. split; [unf; by rs|].
+  apply (undo1_mut _ _ (JCode a (a_code (o_data o))) a KCode (a_code (o_data o))); [done|done|unf; by rs|..].
+  - unf. rs. by rewrite lookup_insert insert_insert.
+  - unf. destruct j; rs. rewrite lookup_insert. rs. f_equal.
+    rewrite insert_insert. apply insert_id. rewrite Ho. f_equal. by destruct o as [? [] ? ? ? ?].
+Qed.
+
+Lemma set_state_undo k v orig prev o :
+  (match o_dirty o !! k with Some d => d = prev ∧ d ≠ orig | None => prev = orig end) →
+  set_state k prev orig (set_state k v orig o) = o.
+Proof.
+  intros H. unfold set_state. destruct o as [oo od dirty pend sd nw]; simpl in *.
+  destruct (v =? orig) eqn:E1; rs; destruct (prev =? orig) eqn:E2; rs; f_equal;
+    apply N.eqb_eq in E2 || apply N.eqb_neq in E2;
+    destruct (dirty !! k) as [d|] eqn:Ed; try (destruct H as [-> H]); try done.
+  - by rewrite delete_idemp delete_notin.
+  - by rewrite insert_delete_insert insert_id.
+  - by rewrite delete_insert.
+  - by rewrite insert_insert insert_id.
+Qed.
+
+Lemma undo_set_state j a o k v :
+  mloc j a → j_objs j !! a = Some o →
+  (∀ d, o_dirty o !! k = Some d → d ≠ committed j a o k) →
+  restores j (obj_set_state a o k v j) (JStorage a k (get_state j a o k) (committed j a o k)).
+Proof.
+  intros Hl Ho Hd. split; [unf; by rs|].
+  apply (undo1_mut _ _ (JStorage a k (get_state j a o k) (committed j a o k)) a KStorage 0);
+    [done|done|unf; by rs|unf; by rs|].
+  unf. destruct j; rs. rewrite lookup_insert. rs. f_equal.
+  rewrite insert_insert. apply insert_id. rewrite Ho. f_equal.
+  apply set_state_undo. unfold get_state. destruct (o_dirty o !! k) eqn:E; [|done].
+  split; [done|]. by apply Hd.
+Qed.
+
+Lemma undo_self_destruct j a o :
+  mloc j a → j_objs j !! a = Some o → o_sd o = false →
+  restores j (obj_self_destruct a o j) (JSelfDestruct a).
+Proof.
+  intros Hl Ho Hs. split; [unf; by rs|].
+  apply (undo1_mut _ _ (JSelfDestruct a) a KSelfDestruct 0); [done|done|unf; by rs|unf; by rs|].
+  unf. destruct j; rs. rewrite lookup_insert. rs. f_equal.
+  rewrite insert_insert. apply insert_id. rewrite Ho. f_equal. destruct o; simpl in *. by subst.
+Qed.
+
+Lemma undo_create_contract j a o :
+  j_objs j !! a = Some o → o_new o = false →
+  restores j (j_append (JCreateContract a) (put_obj a (o <| o_new := true |>) j)) (JCreateContract a).
+Proof.
+  intros Ho Hs. split; [unf; by rs|].
+  apply undo1_nomut; [done|unf; by rs|].
+  unf. destruct j; rs. rewrite lookup_insert. rs. f_equal.
+  rewrite insert_insert. apply insert_id. rewrite Ho. f_equal. destruct o; simpl in *. by subst.
+Qed.
+
+Lemma undo_touch j a :
+  mloc j a → a ≠ ripemd → restores j (touch_change a j) (JTouch a).
+Proof.
+  intros Hl Hr. unfold touch_change. rewrite bool_decide_false //.
+  split; [unf; by rs|].
+  apply (undo1_mut _ _ (JTouch a) a KTouch 0); [done|done|unf; by rs|unf; by rs|].
+  unf. by destruct j; rs.
+Qed.
+
+Lemma undo_refund j v :
+  restores j ((j_append (JRefund (j_refund j)) j) <| j_refund := v |>) (JRefund (j_refund j)).
+Proof.
+  split; [unf; by rs|]. apply undo1_nomut; [done|unf; by rs|]. unf. by destruct j; rs.
+Qed.
+Lemma undo_refund' j :
+  restores j (j_append (JRefund (j_refund j)) j) (JRefund (j_refund j)).
+Proof.
+  split; [unf; by rs|]. apply undo1_nomut; [done|unf; by rs|]. unf. by destruct j; rs.
+Qed.
+
+Lemma undo_al_addr j a :
+  j_ala j !! a = None →
+  restores j (j_append (JALAddr a) (j <| j_ala ::= <[a := (-1)%Z]> |>)) (JALAddr a).
+Proof.
+  intros H. split; [unf; by rs|]. apply undo1_nomut; [done|unf; by rs|].
+  unf. destruct j; rs. f_equal. by rewrite delete_insert.
+Qed.
+
+Lemma undo_transient j a k v :
+  (∀ x, j_tstor j !! (a, k) = Some x → x ≠ 0) →
+  let prev := default 0 (j_tstor j !! (a, k)) in
+  restores j ((j_append (JTransient a k prev) j)
+                <| j_tstor ::= (if v =? 0 then delete (a, k) else <[(a, k) := v]>) |>)
+           (JTransient a k prev).
+Proof.
+  intros H prev. split; [unf; by rs|]. apply undo1_nomut; [done|unf; by rs|].
+  unf. subst prev. destruct j; rs. f_equal.
+  destruct (j_tstor !! (a, k)) as [x|] eqn:E; simpl.
+  - specialize (H x eq_refl). destruct (x =? 0) eqn:Ex; [apply N.eqb_eq in Ex; done|].
+    destruct (v =? 0); [by rewrite insert_delete_insert insert_id|by rewrite insert_insert insert_id].
+  - destruct (v =? 0); [by rewrite delete_idemp delete_notin|by rewrite delete_insert].
+Qed.
+
+Lemma undo_log j l :
+  (j_logs j !! j_th j ≠ Some []) →
+  restores j ((j_append (JAddLog (j_th j)) j)
+                <| j_logs ::= <[j_th j := default [] (j_logs j !! j_th j) ++ [l]]> |>
+                <| j_logsize ::= N.succ |>) (JAddLog (j_th j)).
+Proof.
+  intros H. split; [unf; by rs|]. apply undo1_nomut; [done|unf; by rs|].
+  unf. destruct j; rs. rewrite lookup_insert. simpl.
+  destruct (j_logs !! j_th) as [[|x xs]|] eqn:E; simpl; [done| |].
+  - destruct (xs ++ [l]) eqn:E2; [by destruct xs|]. rewrite -E2. rs. rewrite N.pred_succ. f_equal.
+    change (x :: xs ++ [l]) with ((x :: xs) ++ [l]). rewrite removelast_last.
+    by rewrite insert_insert insert_id.
+  - rs. rewrite N.pred_succ. f_equal. by rewrite delete_insert.
+Qed.
